@@ -1202,6 +1202,79 @@ pub fn seeds() -> Vec<RawSeed> {
     out
 }
 
+/// Additional seeds of the thorough tier: the header versions the writer emits beyond MoP (MD20 rich +
+/// minimal each, MD21 containers around Legion / Shadowlands payloads), skins and anims with more elements
+/// per section (old layout, WotLK / WoD / Shadowlands / Dragonflight headers).  A seed whose construction or read-back fails is
+/// left out (the writer is being fixed while this check exists).
+pub fn seeds_thorough_extra() -> Vec<RawSeed> {
+    const MORE_VERSIONS: [(&str, M2Version); 6] = [
+        ("wod", M2Version::WoD),
+        ("legion", M2Version::Legion),
+        ("bfa", M2Version::BfA),
+        ("shadowlands", M2Version::Shadowlands),
+        ("dragonflight", M2Version::Dragonflight),
+        ("tww", M2Version::TheWarWithin),
+    ];
+    let mut out = Vec::new();
+    let mut notes = Vec::new();
+    let accepted = |b: &[u8]| guarded("parse_m2", || wow_m2::parse_m2(&mut Cursor::new(b)).map(|_| ()).map_err(|e| e.to_string())).is_ok();
+    for (tag, v) in MORE_VERSIONS {
+        if let Ok(b) = rich_bytes(&format!("{tag}_rich"), v, &mut notes) {
+            if accepted(&b) {
+                out.push(RawSeed::new("m2", format!("{tag}_rich"), b));
+            }
+        }
+        match write_m2(&minimal(v)) {
+            Ok(b) => {
+                let r = guarded("parse_m2", || wow_m2::parse_m2(&mut Cursor::new(&b[..])).map(|_| ()).map_err(|e| e.to_string()));
+                if std::env::var("C05_VERBOSE").is_ok() {
+                    eprintln!("m2 seed {tag}_min: {} bytes, parse_m2: {r:?}", b.len());
+                }
+                if r.is_ok() {
+                    out.push(RawSeed::new("m2", format!("{tag}_min"), b));
+                }
+            }
+            Err(e) => {
+                if std::env::var("C05_VERBOSE").is_ok() {
+                    eprintln!("m2 seed {tag}_min: write refused: {e}");
+                }
+            }
+        }
+    }
+    for (name, v, level) in [("md21_legion_all", M2Version::Legion, 3u8), ("md21_shadowlands_fileids", M2Version::Shadowlands, 2), ("md21_tww_all", M2Version::TheWarWithin, 3)] {
+        if let Ok(b) = rich_bytes("md21 payload", v, &mut Vec::new()) {
+            let b = md21(&b, level);
+            if accepted(&b) {
+                out.push(RawSeed::new("m2", name, b));
+            }
+        }
+    }
+    let skins: [(&str, Option<M2Version>, usize, usize, usize, usize, usize); 6] = [
+        ("skin_old_9sub_8bat", None, 30, 10, 24, 9, 8),
+        ("skin_new_wotlk_1sub", Some(M2Version::WotLK), 3, 1, 3, 1, 1),
+        ("skin_new_wod_9sub_8bat", Some(M2Version::WoD), 30, 10, 24, 9, 8),
+        ("skin_new_shadowlands_3sub", Some(M2Version::Shadowlands), 6, 3, 6, 3, 3),
+        ("skin_new_dragonflight_2sub", Some(M2Version::Dragonflight), 6, 2, 6, 2, 2),
+        ("skin_new_tww_3sub", Some(M2Version::TheWarWithin), 9, 3, 9, 3, 4),
+    ];
+    for (name, layout, n_idx, n_tri, n_verts, n_sub, n_bat) in skins {
+        if let Ok(b) = skin(name, layout, n_idx, n_tri, n_verts, n_sub, n_bat, &mut notes) {
+            out.push(RawSeed::new("skin", name, b));
+        }
+    }
+    let anims: [(&str, bool, &[&[(u32, usize)]]); 3] = [
+        ("anim_legacy_4sec_9bones", false, &[&[(7, 3), (1, 1), (2, 2), (4, 1), (0, 0), (3, 2), (5, 1), (6, 2), (7, 1)], &[(1, 9)], &[], &[(7, 2)]]),
+        ("anim_modern_9sec", true, &[&[(1, 1)], &[], &[(2, 2)], &[(4, 1)], &[], &[(7, 1)], &[(0, 0)], &[(3, 1)], &[(5, 2)]]),
+        ("anim_modern_1sec_9bones_9keys", true, &[&[(7, 9), (1, 1), (2, 2), (4, 1), (0, 0), (3, 2), (5, 1), (6, 2), (7, 1)]]),
+    ];
+    for (name, modern, shape) in anims {
+        if let Ok(b) = anim(name, modern, shape, &mut notes) {
+            out.push(RawSeed::new("anim", name, b));
+        }
+    }
+    out
+}
+
 /// Which repairs / omissions were needed with the /repo this was built against (one per line).
 #[allow(dead_code)]
 pub fn report() -> String {
